@@ -7,6 +7,7 @@ import (
 	"path/filepath"
 	"sort"
 	"strings"
+	"sync"
 )
 
 // sensitivityAudit (thorough tier): applies every patch of /verif/mutants and
@@ -48,53 +49,66 @@ func sensitivityAudit(verif, prop string) []map[string]interface{} {
 			switch {
 			case strings.HasPrefix(e.Name(), prop+"_"):
 				jobs = append(jobs, job{"seed " + e.Name(), patch, "fire?"})
-			case strings.HasPrefix(e.Name(), "ref_"):
+			case strings.HasPrefix(e.Name(), "ref_"), strings.HasPrefix(e.Name(), "ref3_"):
 				jobs = append(jobs, job{"refactoring " + e.Name(), patch, "silent"})
 			}
 		}
 	}
 	sort.Slice(jobs, func(i, j int) bool { return jobs[i].id < jobs[j].id })
-	var out []map[string]interface{}
-	for _, j := range jobs {
-		cmd := exec.Command(filepath.Join(verif, "bin", "mutcheck"), j.patch, prop)
-		b, _ := cmd.CombinedOutput()
-		s := string(b)
-		res := "silent"
-		switch {
-		case strings.Contains(s, "SKIP:"):
-			res = "skipped (patch does not apply to the current tree)"
-		case strings.Contains(s, "VIOLATION property="):
-			res = "fired"
-		case strings.Contains(s, "ERROR"):
-			res = "error"
-		}
-		var rules []string
-		seen := map[string]bool{}
-		for _, ln := range strings.Split(s, "\n") {
-			if strings.Contains(ln, "[violated/") || strings.Contains(ln, "[undecided/") {
-				f := strings.Fields(ln)
-				if len(f) > 1 && !seen[f[1]] {
-					seen[f[1]] = true
-					rules = append(rules, strings.TrimSuffix(f[1], ":"))
-				}
-			}
-		}
-		verdict := "as expected"
-		switch j.expect {
-		case "fire":
-			if res != "fired" {
-				verdict = "MISSED"
-			}
-		case "silent":
-			if res == "fired" {
-				verdict = "FALSE ALARM"
-			}
-		case "fire?":
-			if res != "fired" {
-				verdict = "not detected by this property's own rules (see seeded/AUDIT.md)"
-			}
-		}
-		out = append(out, map[string]interface{}{"change": j.id, "expected": j.expect, "result": res, "rules": rules, "verdict": verdict})
+	out := make([]map[string]interface{}, len(jobs))
+	var wg sync.WaitGroup
+	sem := make(chan struct{}, 8)
+	for ji, j := range jobs {
+		wg.Add(1)
+		sem <- struct{}{}
+		go func(ji int, j job) {
+			defer wg.Done()
+			defer func() { <-sem }()
+			out[ji] = auditOne(verif, prop, j.id, j.patch, j.expect)
+		}(ji, j)
 	}
+	wg.Wait()
 	return out
+}
+
+func auditOne(verif, prop, id, patch, expect string) map[string]interface{} {
+	cmd := exec.Command(filepath.Join(verif, "bin", "mutcheck"), patch, prop)
+	b, _ := cmd.CombinedOutput()
+	s := string(b)
+	res := "silent"
+	switch {
+	case strings.Contains(s, "SKIP:"):
+		res = "skipped (patch does not apply to the current tree)"
+	case strings.Contains(s, "VIOLATION property="):
+		res = "fired"
+	case strings.Contains(s, "ERROR"):
+		res = "error"
+	}
+	var rules []string
+	seen := map[string]bool{}
+	for _, ln := range strings.Split(s, "\n") {
+		if strings.Contains(ln, "[violated/") || strings.Contains(ln, "[undecided/") {
+			f := strings.Fields(ln)
+			if len(f) > 1 && !seen[f[1]] {
+				seen[f[1]] = true
+				rules = append(rules, strings.TrimSuffix(f[1], ":"))
+			}
+		}
+	}
+	verdict := "as expected"
+	switch expect {
+	case "fire":
+		if res != "fired" {
+			verdict = "MISSED"
+		}
+	case "silent":
+		if res == "fired" {
+			verdict = "FALSE ALARM"
+		}
+	case "fire?":
+		if res != "fired" {
+			verdict = "not detected by this property's own rules (see seeded/AUDIT.md)"
+		}
+	}
+	return map[string]interface{}{"change": id, "expected": expect, "result": res, "rules": rules, "verdict": verdict}
 }
